@@ -263,7 +263,9 @@ def run(chk):
     hunt4_rules(chk, repo)
     # ---- drain: a request that is being handled keeps receiving its input while the server waits for it ---------------------------
     dr = repo.func(PROTO, "RequestHandler.data_received")
-    drops = [r for r in ast.walk(dr.node) if isinstance(r, ast.Return) and r.value is None and any(t in norm.fmt_cnf(PC.pc(r)) for t in ("self._close", "self._force_close"))]
+    # returns taken *because* a closing flag is up (the flag appears positively in their path condition; the fall-through of such a test, which
+    # later returns inherit as `not closing or in progress`, is not a reason)
+    drops = [r for r in ast.walk(dr.node) if isinstance(r, ast.Return) and r.value is None and any(l.pos and l.text in ("self._close", "self._force_close") for c_ in PC.pc(r) for l in c_)]
     if not drops:
         chk.ok("C20.drain", dr, "data_received() never discards input because of a closing flag")
     for r in drops:
